@@ -232,7 +232,8 @@ where
 
     #[inline]
     fn empty(&mut self) {
-        self.slice = &[];
+        // Keep the position, so that offsets can still be calculated.
+        self.slice = &self.slice[..0];
     }
 
     #[inline]
